@@ -91,7 +91,7 @@ def h_dt_data(f, N, mode, period=None, txt=None):
     return body
 
 
-def h_ct_data(f, ns, mode, overlap=False):
+def h_ct_data(f, ns, mode, overlap=False, closed=False):
     f = T(f)
     vs = sorted(variables(f))
 
@@ -102,6 +102,10 @@ def h_ct_data(f, ns, mode, overlap=False):
         sigs = {v: ct.signal(env, v, n, 'zero') for v, n in zip(vs, ns)}
         if mode == 'offline':
             args = [[v, [list(p) for p in sigs[v]]] for v in vs]
+            if closed:
+                # the caller closes each signal with a sample at +inf (the library's own way of writing "constant from here on")
+                for v, sg in args:
+                    sg.append([float('inf'), sg[-1][1]])
             before = snap(args)
             r1 = s.evaluate(*args)
             same(A, 'data', before, args, res)
@@ -243,6 +247,9 @@ def obligations(tier, rng):
                 continue
             out.append(ob('C11', 'ct_data', 'data/ct-%s/%s' % (mode, text(f)), f=f, ns=[2, 2] if two else [3], mode=mode,
                           max_paths=20000, wall=600))
+            if mode == 'offline' and (two or f[0] in ('once', 'always_t', 'not')):
+                out.append(ob('C11', 'ct_data', 'data/ct-offline-inf-closed/%s' % text(f), f=f, ns=[2, 2] if two else [3], mode=mode, closed=True,
+                              max_paths=20000, wall=600))
             if mode == 'online':
                 out.append(ob('C11', 'ct_data', 'data/ct-online-overlap/%s' % text(f), f=f, ns=[2, 2] if two else [3], mode=mode, overlap=True,
                               max_paths=20000, wall=600))
